@@ -1113,3 +1113,92 @@ Proof.
   eexists. eexists. eexists.
   split; [vm_compute; reflexivity|]. split; [vm_compute; reflexivity|]. split; vm_compute; reflexivity.
 Qed.
+
+(* ------------------------------------------------------------------------------------------------ *)
+(* wave 10c: BCF -> VCF for the WHOLE file with the header block (NV.Util.ConvertVariantHdrRev):
+   the BCF prefix is read by C10's read_prefix (magic, version, l_text, header text -> header value
+   and the reader's string maps), the VCF writer emits the header lines and one line per lazy
+   bcf::Record (sample-count check included) under the tables of THAT header. *)
+From NV Require Vcf.FileProofs.
+From NV Require Import Util.ConvertVariantHdrRev Util.ConvertVariantHdrRevProofs.
+Open Scope N_scope.
+
+(* a run succeeds EXACTLY when C10's lazy BCF file reader reads the source to its clean end and C09's
+   VCF file writer accepts the header and records read; the output is that writer's text *)
+Theorem c20_convert_bcf_to_vcf_file_is_read_then_write :
+  forall (fmt_float : N -> list N) bs out,
+    convert_bcf_vcf_hfile fmt_float bs = BhOk out <->
+    exists hd rs, Bcf.File.bcf_read_file_lazy bs = Bcf.File.FOk (hd, (rs, Bcf.File.EndEof)) /\
+                  File.write_file fmt_float hd rs = Some out.
+Proof.
+  intros fmt_float bs out. split.
+  - apply convert_bcf_vcf_hfile_is_read_then_write.
+  - intros (hd & rs & Hr & Hw). exact (convert_bcf_vcf_hfile_complete fmt_float bs hd rs out Hr Hw).
+Qed.
+Print Assumptions c20_convert_bcf_to_vcf_file_is_read_then_write.
+
+(* THE FILE WITH ITS HEADER, BCF -> VCF: on a successful run the source is (hd, rs) for the lazy BCF
+   file reader; when hd is in C09's header domain and the records read are in the VCF writer's
+   round-trip domain under the tables of that header, both VCF file readers read the output back as
+   the same header and canon of the same records, to a clean Ok(0) *)
+Theorem c20_convert_bcf_to_vcf_file_with_header :
+  forall (fmt_float : N -> list N) (prs_float : list N -> option N) (FOK : N -> Prop),
+    (forall b, FOK b -> prs_float (fmt_float b) = Some b) ->
+    (forall b x, FOK b -> In x (fmt_float b) -> x <> 44 /\ x <> 9 /\ x <> 10 /\ x <> 59 /\ x <> 58) ->
+    (forall b, FOK b -> fmt_float b <> Values.dot) ->
+    (forall b, FOK b -> fmt_float b <> []) ->
+    (forall b x, FOK b -> In x (fmt_float b) -> x <> 13) ->
+    forall valid bs out,
+      convert_bcf_vcf_hfile fmt_float bs = BhOk out ->
+      exists hd rs,
+        Bcf.File.bcf_read_file_lazy bs = Bcf.File.FOk (hd, (rs, Bcf.File.EndEof)) /\
+        (HeaderProofs.header_ok hd -> File.hdr_defs_ok hd = true -> Vcf.FileProofs.header_framed hd ->
+         Forall (rec_ok fmt_float FOK (File.hctx_of_header hd)) rs -> Vcf.FileProofs.first_chrom_ok rs ->
+         (forall s, (forall b, In b s -> In b out) -> valid s = true) ->
+         File.read_file_eager prs_float valid out =
+           Some (hd, (map (canon (File.hctx_of_header hd)) rs, true)) /\
+         File.read_file_lazy prs_float valid out =
+           Some (hd, (map (fun r => Some (canon (File.hctx_of_header hd) r)) rs, true))).
+Proof. exact convert_bcf_vcf_hfile_preserves. Qed.
+Print Assumptions c20_convert_bcf_to_vcf_file_with_header.
+
+(* ... for a BCF file whose header block the BCF writer emitted for hd, followed by ANY record section:
+   the header conditions are conditions on the header that was WRITTEN into the BCF file, and the VCF
+   output reads back as that header *)
+Theorem c20_convert_bcf_to_vcf_file_written_header :
+  forall (fmt_float : N -> list N) (prs_float : list N -> option N) (FOK : N -> Prop),
+    (forall b, FOK b -> prs_float (fmt_float b) = Some b) ->
+    (forall b x, FOK b -> In x (fmt_float b) -> x <> 44 /\ x <> 9 /\ x <> 10 /\ x <> 59 /\ x <> 58) ->
+    (forall b, FOK b -> fmt_float b <> Values.dot) ->
+    (forall b, FOK b -> fmt_float b <> []) ->
+    (forall b x, FOK b -> In x (fmt_float b) -> x <> 13) ->
+    forall valid hd p rest out,
+      HeaderProofs.header_ok hd -> File.hdr_defs_ok hd = true -> HdrFrameProofs.hdr_vals_framed hd ->
+      Bcf.File.write_prefix hd = Some p ->
+      convert_bcf_vcf_hfile fmt_float (p ++ rest) = BhOk out ->
+      exists s c rs,
+        Bcf.File.maps_of_header hd = Some (s, c) /\
+        Bcf.File.read_lazy (Bcf.File.file_fuel rest) s c (File.hctx_of_header hd) rest = (rs, Bcf.File.EndEof) /\
+        (Forall (rec_ok fmt_float FOK (File.hctx_of_header hd)) rs -> Vcf.FileProofs.first_chrom_ok rs ->
+         (forall t, (forall b, In b t -> In b out) -> valid t = true) ->
+         File.read_file_eager prs_float valid out =
+           Some (hd, (map (canon (File.hctx_of_header hd)) rs, true)) /\
+         File.read_file_lazy prs_float valid out =
+           Some (hd, (map (fun r => Some (canon (File.hctx_of_header hd) r)) rs, true))).
+Proof. exact convert_bcf_vcf_hfile_written_prefix. Qed.
+Print Assumptions c20_convert_bcf_to_vcf_file_written_header.
+
+(* non-vacuity, everything computed from BYTES: the BCF file the VCF -> BCF example produced goes back
+   to the VCF text it came from, header lines and record line *)
+Example c20_example_convert_variant_file_there_and_back :
+  let htext := [35;35;102;105;108;101;102;111;114;109;97;116;61;86;67;70;118;52;46;51;10;35;35;73;78;70;79;61;60;73;68;61;68;80;44;78;117;109;98;101;114;61;49;44;84;121;112;101;61;73;110;116;101;103;101;114;44;68;101;115;99;114;105;112;116;105;111;110;61;34;100;34;62;10;35;35;99;111;110;116;105;103;61;60;73;68;61;99;48;62;10;35;67;72;82;79;77;9;80;79;83;9;73;68;9;82;69;70;9;65;76;84;9;81;85;65;76;9;70;73;76;84;69;82;9;73;78;70;79;10] in
+  let line := [99;48;9;53;9;46;9;65;9;71;9;46;9;46;9;68;80;61;55] in
+  exists bcf,
+    convert_vcf_bcf_hfile (fun _ => None) htext [line] = HvOk bcf /\
+    convert_bcf_vcf_hfile (fun _ => []) bcf = BhOk (htext ++ line ++ [10]) /\
+    (* cut inside l_text: UnexpectedEof; cut inside a header line: that line's parse error comes first *)
+    convert_bcf_vcf_hfile (fun _ => []) (firstn 8 bcf) = BhReadHeaderErr true /\
+    convert_bcf_vcf_hfile (fun _ => []) (firstn 40 bcf) = BhReadHeaderErr false.
+Proof.
+  eexists. split; [vm_compute; reflexivity|]. split; [vm_compute; reflexivity|]. split; vm_compute; reflexivity.
+Qed.
